@@ -32,6 +32,13 @@ struct State {
     events: u64,
     switches: u64,
     labels: BTreeMap<&'static str, u64>,
+    /// Set by the watchdog when no scheduler event happened for a long time
+    /// while actors were parked: the running actor is blocked on something a
+    /// parked actor holds (a lock taken across a yield point). All actors are
+    /// then released and finish free-running; the results are still judged.
+    released: bool,
+    progress: u64,
+    done: bool,
 }
 
 pub struct Sched {
@@ -109,7 +116,7 @@ impl Sched {
             st.current = first;
             self.cv.notify_all();
         }
-        while st.current != Some(actor) {
+        while st.current != Some(actor) && !st.released {
             st = self.cv.wait(st).unwrap();
         }
     }
@@ -117,10 +124,11 @@ impl Sched {
     fn yield_point(&self, label: &'static str) {
         let Some(me) = ACTOR.with(|a| a.get()) else { return };
         let mut st = self.st.lock().unwrap();
-        if st.current != Some(me) {
-            // not under the scheduler's control (should not happen)
+        if st.released || st.current != Some(me) {
+            // not under the scheduler's control (released by the watchdog)
             return;
         }
+        st.progress += 1;
         *st.labels.entry(label).or_insert(0) += 1;
         st.events += 1;
         let mut h = st.fingerprint;
@@ -131,7 +139,7 @@ impl Sched {
         if next != Some(me) {
             st.current = next;
             self.cv.notify_all();
-            while st.current != Some(me) {
+            while st.current != Some(me) && !st.released {
                 st = self.cv.wait(st).unwrap();
             }
         }
@@ -140,6 +148,7 @@ impl Sched {
     fn exit(&self, actor: usize) {
         let mut st = self.st.lock().unwrap();
         st.finished[actor] = true;
+        st.progress += 1;
         let mut h = st.fingerprint;
         mix(&mut h, 0xE000 + actor as u64);
         st.fingerprint = h;
@@ -221,6 +230,9 @@ pub fn op_scenario(req: &Value) -> Value {
                 events: 0,
                 switches: 0,
                 labels: BTreeMap::new(),
+                released: false,
+                progress: 0,
+                done: false,
             }),
             cv: Condvar::new(),
         })
@@ -230,6 +242,33 @@ pub fn op_scenario(req: &Value) -> Value {
         bindgen::verif::sched::install(Arc::new(move |label| s2.yield_point(label)));
         *SYS_SCHED.lock().unwrap() = Some(s.clone());
         set_sys_hook(true);
+        // watchdog: wall-clock only decides *whether* to give up scheduling a
+        // scenario, never an interleaving that is reported as replayable
+        let s3 = s.clone();
+        let limit_ms = std::env::var("BVSIM_SCHED_STALL_MS").ok().and_then(|v| v.parse().ok()).unwrap_or(30_000u64);
+        std::thread::spawn(move || {
+            let mut last = 0u64;
+            let mut idle = 0u64;
+            loop {
+                std::thread::sleep(std::time::Duration::from_millis(250));
+                let mut st = s3.st.lock().unwrap();
+                if st.done || st.released {
+                    return;
+                }
+                if st.progress != last || st.registered < st.n {
+                    last = st.progress;
+                    idle = 0;
+                    continue;
+                }
+                idle += 250;
+                let parked = (0..st.n).filter(|&a| !st.finished[a] && st.current != Some(a)).count();
+                if idle >= limit_ms && parked > 0 {
+                    st.released = true;
+                    s3.cv.notify_all();
+                    return;
+                }
+            }
+        });
     }
     let results: Arc<Mutex<Vec<Vec<Value>>>> = Arc::new(Mutex::new(vec![Vec::new(); n]));
     let mut handles = Vec::new();
@@ -270,8 +309,10 @@ pub fn op_scenario(req: &Value) -> Value {
     let results = results.lock().unwrap().clone();
     let mut out = json!({"results": results, "thread_panics": thread_panics});
     if let Some(s) = &sched {
-        let st = s.st.lock().unwrap();
+        let mut st = s.st.lock().unwrap();
+        st.done = true;
         out["sched"] = json!({
+            "deadlock_released": st.released,
             "fingerprint": format!("{:016x}", st.fingerprint),
             "events": st.events,
             "switches": st.switches,
